@@ -428,7 +428,7 @@ func c06Minimise(dir string, c c06Case, class string) string {
 	s := cur
 	if s[dPad] != 0 {
 		s[dPad] = 0
-		return strings.TrimSpace(s.String() + " pad=" + fmt.Sprint(cur[dPad]))
+		return strings.TrimSpace(s.String() + " pad=some-alignment") // the offset itself is in the replay file, not in the signature
 	}
 	return cur.String()
 }
